@@ -97,22 +97,22 @@ class C02(Prop):
         fss = [r for r in results if r[0] == "fs"]
         op_with_obs = [o for o in ops if o[0] not in ("init", "dumpfs", "counters")]
         if len(op_with_obs) != len(obs) or len(fss) != 2:
-            return []
+            return self.skip("guard")
         seq = list(zip(op_with_obs, obs))
         try:
             npi = [i for i, ((n, kv), _) in enumerate(seq) if n == "newprocess"][-1]
         except IndexError:
-            return []
+            return self.skip("guard")
         rec = [(kv, o) for (n, kv), (_, _, o) in seq[:npi] if n == "match"]
         rep = [(kv, idx, o) for (n, kv), (_, idx, o) in seq[npi:] if n == "match"]
         if not rec or len(rep) != 1:
-            return []
+            return self.skip("guard")
         kv1, idx, o1 = rep[0]
         kv0, o0 = rec[-1]
         if kv0["test"] != kv1["test"] or kv0["api"] != kv1["api"] or o0["outcome"] != "added":
-            return []
+            return self.skip("guard")
         if not (kv0["pre"].startswith("ok:") and kv1["pre"].startswith("ok:")) or kv0["pre"] == kv1["pre"]:
-            return []
+            return self.skip("guard")
         fails = []
         if o1["outcome"] != "failed:diff" or o1["errors"] != "1" or o1["writes"] != "-" or fss[0][2] != fss[1][2]:
             fails.append({"msg": "obs %d (%s): stored %r, received %r -> outcome=%s errors=%s writes=%s" %
